@@ -193,6 +193,9 @@ func (fr *Frame) typeFacts(term string, t types.Type, h Heap) string {
 	case *types.Pointer, *types.Map:
 		return fmt.Sprintf("(<= %s %s)", term, fr.allocOf(h))
 	case *types.Basic:
+		if isString(t) {
+			return fr.g.ile(fr.g.ilit(0), "(slen "+term+")")
+		}
 		return fr.g.rangeFact(term, t)
 	}
 	return "true"
